@@ -103,8 +103,18 @@ func guardHolds(n *conc.Node, m map[string]string) bool {
 // tier, its first instance is replayed as the witness). Any other
 // counterexample is first replayed against the real generated code; only a
 // reproduced one becomes a VIOLATION, the rest are UNCONFIRMED (inconclusive).
-func (ic *InjCase) report(sig map[string]string, m map[string]string, tag string) {
+func (ic *InjCase) report(sigIn map[string]string, m map[string]string, tag string) {
 	c := ic.c
+	// keys starting with "_" are hints for the replay oracle, not part of the signature
+	sig := map[string]string{}
+	hints := map[string]string{}
+	for k, v := range sigIn {
+		if strings.HasPrefix(k, "_") {
+			hints[k] = v
+		} else {
+			sig[k] = v
+		}
+	}
 	key := sigString(sig)
 	known := c.MatchKnown(sig) != nil
 	ic.st.mu.Lock()
@@ -128,7 +138,7 @@ func (ic *InjCase) report(sig map[string]string, m map[string]string, tag string
 				why = rep.Err.Error()
 				continue
 			}
-			ok, why = observed(sig, script, rep)
+			ok, why = observed(sig, hints, script, rep)
 		}
 		status = "confirmed"
 		if !ok {
@@ -222,7 +232,7 @@ func scriptFromModel(ic *InjCase, m map[string]string, attempt int) replay.Scrip
 }
 
 // observed decides whether a replay exhibits the observable of a finding kind.
-func observed(sig map[string]string, sc replay.Script, rep *replay.Result) (bool, string) {
+func observed(sig, hints map[string]string, sc replay.Script, rep *replay.Result) (bool, string) {
 	why := "no run showed the observable"
 	for _, o := range rep.Observations {
 		if !o.Realised {
@@ -238,10 +248,6 @@ func observed(sig map[string]string, sc replay.Script, rep *replay.Result) (bool
 		case "lost-error":
 			if o.Returned && (o.Err == "nil" || o.Err == "none") && faultExited(sc, o) {
 				return true, ""
-			}
-		case "dependent-invoked":
-			if faultExited(sc, o) {
-				return true, "" // the log is inspected by the caller's signature; entering after a failed exit is visible in Log
 			}
 		case "hang", "hang-after-failure", "deadlock":
 			if !o.Returned {
@@ -262,7 +268,29 @@ func observed(sig map[string]string, sc replay.Script, rep *replay.Result) (bool
 			if strings.Contains(o.Panic, "close of closed channel") {
 				return true, ""
 			}
-		case "race", "read-before-write", "write-write-race", "entered-before-producer-returned":
+		case "entered-before-producer-returned", "dependent-invoked":
+			if rep.Race && sig["kind"] != "dependent-invoked" {
+				return true, ""
+			}
+			// log order: the consumer is entered although the producer has not exited (or exited with a fault)
+			ce, pe := -1, -1
+			for i, l := range o.Log {
+				if l == "enter "+hints["_consumer"] && ce < 0 {
+					ce = i
+				}
+				if l == "exit "+hints["_producer"] && pe < 0 {
+					pe = i
+				}
+			}
+			if sig["kind"] == "dependent-invoked" {
+				if ce >= 0 && pe >= 0 && faultExited(sc, o) {
+					return true, ""
+				}
+			} else if ce >= 0 && (pe < 0 || ce < pe) {
+				return true, ""
+			}
+			why = fmt.Sprintf("log order does not show it: %v", o.Log)
+		case "race", "read-before-write", "write-write-race":
 			if rep.Race {
 				return true, ""
 			}
